@@ -14,6 +14,7 @@ for pid in ALL:
         'quick_cmd': 'bin/check %s quick' % pid,
         'thorough_cmd': 'bin/check %s thorough' % pid,
         'evidence_file': '/verif/evidence/%s.json' % pid,
+        'replay_cmd_template': 'bin/replay {path}',
         'engine': 'tlc+replay',
         'level_claimed': {'category': 'model_checking', 'text': c['text'], 'design_ref': c['ref']},
         'level_note': c['note'],
